@@ -16,7 +16,7 @@ GENS = [("Macros", "gen_macros"), ("EmitTable", "gen_emit")]
 CFG = {
   "C01": {"modules": ["W2c2Verif.Props.C01", "W2c2Verif.Props.C01Fallback", "W2c2Verif.Props.C01Ops"],
           "macro_ops": ro.int_ops, "is_mine": opmods.is_int_op, "spec": True},
-  "C02": {"modules": ["W2c2Verif.Props.C02", "W2c2Verif.Props.C02Ops"],
+  "C02": {"modules": ["W2c2Verif.Props.C02", "W2c2Verif.Props.C02Ops", "W2c2Verif.Props.C02Guards", "W2c2Verif.Props.C02TruncOps"],
           "macro_ops": ro.float_ops, "is_mine": lambda o: not opmods.is_int_op(o), "spec": False},
 }
 
